@@ -668,7 +668,7 @@ class ConsumerWorld(ClientWorld):
         if self.stop_step is not None and self.epoch in self.stopped_epochs and self.PROP == "C13":
             self.viol("stop", "request-issued-after-stop:%s" % name,
                       "%s was called at step %d, after stop() returned at step %d" % (name, self.step, self.stop_step))
-        if self.PROP == "C14":
+        if self.PROP in ("C14", "C12"):
             limit = self.cfg.get("consumer", {}).get("request_retry_max_attempts", 0)
             if limit and self.consec_failures >= limit:
                 self.viol("retry-limit", "request-reissued-beyond-attempt-limit",
@@ -827,7 +827,7 @@ class ConsumerWorld(ClientWorld):
     def finish(self, horizon):
         if self.PROP in ("C02", "C08", "C04"):
             self.finish_c02(horizon)
-        if self.PROP == "C14":
+        if self.PROP in ("C14", "C12"):
             self.finish_c14(horizon)
         if self.PROP == "C13":
             for rec in self.shutdown_results:
